@@ -102,6 +102,20 @@ func errorSinks(v ssa.Value) []errSink {
 				cc := x.Common()
 				name := calleeName(cc)
 				sinks = append(sinks, errSink{"arg:" + name, x})
+				// handed to a helper that never returns and panics with what it was handed (fatal(err, msg))
+				if callsNoReturn(x) {
+					if callee := cc.StaticCallee(); callee != nil {
+						for i, a := range cc.Args {
+							if a == v && i < len(callee.Params) {
+								for _, k2 := range errorSinks(callee.Params[i]) {
+									if k2.Kind == "panic" {
+										sinks = append(sinks, errSink{"panic", x})
+									}
+								}
+							}
+						}
+					}
+				}
 			}
 		}
 	}
